@@ -636,30 +636,32 @@ def rule_graph_search(ctx):
         R.missing('E5', 'contains_transitive_edge', 'not found', props=('C11', 'C05'))
         return
     inf = ctx.infeasible(b)
-    takes = b.find_calls(lambda c: c.qname in ('std::cell::Cell::take', 'std::cell::Cell::replace', 'std::mem::take') and any(('f', g.get('scratch')) in o.path for o in b.orig_operand(c.args[0])))
-    if takes:
-        t = takes[0]
-        uses = [c for c in b.calls.values() if c.args and c.args[0][0] in ('c', 'm') and t.bb in ctx.base_call_bbs(b.orig_operand(c.args[0])) and not b.blocks[c.bb]['cleanup']]
-        clears = [c for c in uses if c.name == 'clear']
-        full = set()
-        for c in clears:
-            cb = F.callee_body(c)
-            if cb is None:
-                po = b.orig_operand(c.args[0])
-                full |= {p[1] for o in po for p in o.path if isinstance(p, tuple)}
-            else:
-                inner = {p[1] for x in cb.calls.values() if x.name == 'clear' for o in cb.orig_operand(x.args[0]) for p in o.path if isinstance(p, tuple)}
-                full |= inner
-        others = [c for c in uses if c.name != 'clear' and c.qname not in ('std::cell::Cell::set',)]
-        bad = None
-        for u in others:
-            w = b.must_before(u.bb, ctx.both(inf, lambda n: n in {c.bb for c in clears}))
-            if w is not None:
-                bad = u
-        good = bool(clears) and bad is None and {'stack', 'visited'} <= full
-        R.ob('E5-scratch', b.path, good, 'the reused scratch space (stack and visited set) is cleared before its first use in a query' if good
-             else 'the reused scratch space is used (%s) before it is cleared: a stale visited set changes answers' % (bad.qname if bad else 'never cleared'), ctx.where(b, t.bb), props=('C11', 'C05'))
-    else:
+    n_take = 0
+    for tb in graph_bodies(ctx):
+        takes = tb.find_calls(lambda c: c.qname in ('std::cell::Cell::take', 'std::cell::Cell::replace', 'std::mem::take') and any(('f', g.get('scratch')) in o.path for o in tb.orig_operand(c.args[0])))
+        for t in takes:
+            n_take += 1
+            tinf = ctx.infeasible(tb)
+            uses = [c for c in tb.calls.values() if not tb.blocks[c.bb]['cleanup'] and any(a[0] in ('c', 'm') and t.bb in ctx.base_call_bbs(tb.orig_operand(a)) for a in c.args)]
+            clears = [c for c in uses if c.name == 'clear']
+            full = set()
+            for c in clears:
+                cb = F.callee_body(c)
+                if cb is None:
+                    full |= {p[1] for o in tb.orig_operand(c.args[0]) for p in o.path if isinstance(p, tuple)}
+                else:
+                    full |= {p[1] for x in cb.calls.values() if x.name == 'clear' for o in cb.orig_operand(x.args[0]) for p in o.path if isinstance(p, tuple)}
+            others = [c for c in uses if c.name != 'clear' and c.qname not in ('std::cell::Cell::set', 'std::mem::drop')]
+            used_fields = {p[1] for c in others for a in c.args if a[0] in ('c', 'm') for o in tb.orig_operand(a) if o.kind == 'call' and o.key == t.bb for p in o.path if isinstance(p, tuple)}
+            bad = None
+            for u in others:
+                if tb.must_before(u.bb, ctx.both(tinf, lambda n: n in {c.bb for c in clears})) is not None:
+                    bad = u
+            good = bool(clears) and bad is None and (used_fields <= full or {'stack', 'visited'} <= full)
+            R.ob('E5-scratch', tb.path, good, 'the reused scratch space is cleared (every part that is used: %s) before its first use' % sorted(used_fields) if good
+                 else 'the reused scratch space is used (%s) before it is cleared, or a used part (%s) is never cleared: stale entries from the previous query change answers'
+                 % (bad.qname if bad else 'n/a', sorted(used_fields - full)), ctx.where(tb, t.bb), props=('C11', 'C05', 'C07', 'C10'))
+    if n_take == 0:
         R.ob('E5-scratch', b.path, True, 'no reused scratch space (fresh allocations per query)', ctx.where(b), props=('C11', 'C05'))
     # query shape: starts at src; true only via children(popped).contains(dst)
     pushes = b.find_calls(lambda c: c.qname == 'std::vec::Vec::push')
@@ -895,12 +897,44 @@ def rule_graph_rank(ctx):
     good = len(loops) >= 2 and all(l[2] for l in loops) and len({tuple(l[1]) for l in loops}) == 1 and all(len(l[1]) == 2 for l in loops)
     R.ob('G4-lockstep', b.path, good, 'keys and ranks of both change sets are collected in lock-step (one key and one rank per node)' if good
          else 'keys and ranks are not collected pairwise for every affected node', ctx.where(b), props=('C10',))
-    # N3: sort keys are ranks
+    # N3: each change set is sorted by the rank component of its (key, rank) pairs
     for c in b.find_calls(lambda c: c.qname.startswith('core::slice::sort')):
-        if c.qname in ('core::slice::sort_unstable_by_key', 'core::slice::sort_by_key'):
-            clos = [x for x in F.closures_of(b) if any(x.id == o.key.replace('fn:', '') for o in b.orig_operand(c.args[1]) if o.kind == 'const')] or F.closures_of(b)
-            ok = any(all(o.kind == 'arg' for o in x.orig_local(0)) and any(isinstance(p, tuple) and p[1] == '1' for o in x.orig_local(0) for p in o.path) for x in clos)
-            R.ob('N3-sort-key', b.path + '#' + c.name, ok, 'change sets are sorted by the rank component (unique)' if ok else 'sort key is not the rank component', ctx.where(b, c.bb), props=('C16', 'C10'))
+        if c.qname not in ('core::slice::sort_unstable_by_key', 'core::slice::sort_by_key'):
+            continue
+        # which tuple index holds the rank: look at the map closure that built the vector's elements
+        vec_anc = ancestors(b, b.orig_operand(c.args[0]), depth=10)
+        rank_idx = None
+        for x in vec_anc.values():
+            if x.qname != 'std::iter::Iterator::map':
+                continue
+            for o in b.orig_operand(x.args[1]):
+                if o.kind == 'aggr':
+                    cid = b.blocks[o.key[0]]['stmts'][o.key[1]]['rv']['ak'].get('closure')
+                    mc = F.bodies.get(cid)
+                    if mc is None:
+                        continue
+                    for d in mc.defs.get(0, []):
+                        if d[0] == 'stmt' and d[3]['k'] == 'aggr' and d[3]['ak'].get('tuple'):
+                            for i, op in enumerate(d[3]['ops']):
+                                if any(('f', g['rank']) in q.path for q in mc.orig_operand(F.operand(op))):
+                                    rank_idx = i
+        key_idx = None
+        for o in b.orig_operand(c.args[1]):
+            if o.kind == 'aggr':
+                cid = b.blocks[o.key[0]]['stmts'][o.key[1]]['rv']['ak'].get('closure')
+                kc = F.bodies.get(cid)
+                if kc is not None:
+                    ro = kc.orig_local(0)
+                    idxs = {p[1] for q in ro if q.kind == 'arg' and q.key == 2 for p in q.path if isinstance(p, tuple) and p[0] == 'f'}
+                    if len(idxs) == 1 and len(ro) == 1:
+                        key_idx = int(next(iter(idxs)))
+        ok = rank_idx is not None and key_idx == rank_idx
+        R.ob('N3-sort-key', b.path + '#' + b.describe_origins(frozenset(o for o in b.orig_operand(c.args[0]))), ok, 'the change set is sorted by its rank component (unique old ranks)' if ok
+             else 'the change set is sorted by tuple field %s, but the rank is field %s: nodes inside a change set lose their relative order' % (key_idx, rank_idx), ctx.where(b, c.bb), props=('C16', 'C10'))
+    srts = [c for c in b.find_calls(lambda c: c.qname in ('core::slice::sort_unstable_by_key', 'core::slice::sort_by_key'))]
+    R.floor('N3-sort-key', 'sorted change sets in the reordering step', len(srts), 2, props=('C10', 'C16'))
+    plain = [c for c in b.find_calls(lambda c: c.qname in ('core::slice::sort_unstable', 'core::slice::sort'))]
+    R.ob('G4-ranks-sorted', b.path, len(plain) == 1, 'the pooled ranks are sorted ascending before they are handed out' if len(plain) == 1 else 'the pooled ranks are not sorted before reassignment', ctx.where(b), props=('C10',))
 
 
 # ------------------------------------------------------------------------------------------------
@@ -1119,6 +1153,21 @@ def _dfs_table(ctx, g, dfs, bound_param, forward):
         want = {'lt': '', 'eq': '', 'gt': 'push'}
         msg = 'backward search: a parent above the lower bound is explored, others are outside the affected window'
     R.ob('C10-dfs-table', dfs.path, table == want, msg if table == want else 'neighbour-rank vs bound decisions are %s, expected %s' % (table, want), ctx.where(dfs), props=('C10', 'C07') if forward else ('C10',))
+    # every neighbour is examined: whatever its rank, the scan of the adjacency continues with the next neighbour (unless a cycle was reported)
+    outer = {c.bb for c in dfs.find_calls(lambda c: c.name == 'pop')}
+    nxb = {c.bb for c in loop_next}
+    cont_ok = True
+    for order in ('lt', 'gt') + (() if forward else ('eq',)):
+        av = decision_avoid(ctx, dfs, is_nrank, is_bound, order)
+        starts = []
+        for nx in loop_next:
+            starts += [n for n, gd in guard_edges_on_call(dfs, nx) if gd.variants() == frozenset(['Some'])]
+        seen = dfs.reach(starts, avoid=ctx.both(inf, av, lambda n: n in nxb))
+        if any(o in seen for o in outer) or any(r in seen for r in dfs.returns()):
+            cont_ok = False
+    R.ob('C10-dfs-continue', dfs.path, cont_ok and bool(loop_next), 'the scan of a node\'s neighbours is never cut short (adjacency is in insertion order, not rank order)' if cont_ok and loop_next
+         else 'the scan of a node\'s neighbours can stop early at a neighbour outside the window: later neighbours (possibly the cycle witness) are never examined', ctx.where(dfs),
+         props=('C10', 'C07') if forward else ('C10',))
     if forward:
         # the Err payload is CycleDetected
         ok = True
